@@ -27,6 +27,7 @@ func init() {
 			m.RunNilField(s, "R-NILFIELD", fns)
 			m.newAssertChecker(s).Run("R-ASSERT", fns)
 			m.RunPrefixKW(s, "R-PREFIXKW")
+			m.RunBlockStart(s, "R-BLOCKSTART") // an empty loop body is an empty body: its @else is not merged into it
 			m.RunTruthUsers(s, "R-TRUTH")
 			m.RunEvalErr(s, "R-EVALERR") // a failing condition / body / sub-expression fails the render instead of being treated as a value
 			s.RequireMin("R-LOOP", 20, "2 loop evaluators x ~9 clauses, block statement clauses")
